@@ -275,9 +275,24 @@ def finish(prop, a, dsl, reports, t0, seed, extra):
                 why = str(e)
             except Exception as e:
                 why = 'replay construction failed: %s: %s' % (e.__class__.__name__, e)
+        lem = dsl.LEMMAS.get(key[6:]) if key.startswith('lemma:') else None
+        lemma_replay = False
+        if lem is not None and lem.replay is not None:
+            try:
+                src = lem.replay(label, c.get('model') or {})
+                lemma_replay = src is not None
+            except Exception as e:
+                why = 'lemma replay construction failed: %s' % e
         path = write_replay(prop, label, c, contract, src, why)
         reproduced = None
         out = ''
+        if lemma_replay:
+            rc, out = run_replay(path)
+            reproduced = (rc == 1)
+            with open(path, 'a') as f:
+                f.write('\n# native run on %s exited %d: %s\n' % (REPO, rc, out[-600:].replace('\n', ' | ')))
+            violations.append((label, path, reproduced, c, out))
+            continue
         if src:
             try:
                 outcome, out = _rp.run_native(path, REPO)
